@@ -257,6 +257,15 @@ type PadStruct struct {
 	Tail  int16
 }
 
+// PadInts: the same with integer fields only (a record header).
+type PadInts struct {
+	Kind uint8
+	_    [3]byte
+	Off  uint32
+	_    uint16
+	Tail int16
+}
+
 func refPad(s PadStruct, be bool) []byte {
 	put := func(out []byte, x uint64, n int) []byte {
 		for j := 0; j < n; j++ {
@@ -573,8 +582,9 @@ func runC15(ctx *Ctx, idx int) {
 			e1, err1 := encode.NewTypeEncoderEndian(TStruct{}, order)
 			e2, err2 := encode.NewTypeEncoderEndian(NestedStruct{}, order)
 			e3, err3 := encode.NewTypeEncoderEndian(PadStruct{}, order)
-			if err1 != nil || err2 != nil || err3 != nil {
-				fail(name, "constructor-error", nil, map[string]interface{}{"error": fmt.Sprint(err1, err2, err3)})
+			e4, err4 := encode.NewTypeEncoderEndian(PadInts{}, order)
+			if err1 != nil || err2 != nil || err3 != nil || err4 != nil {
+				fail(name, "constructor-error", nil, map[string]interface{}{"error": fmt.Sprint(err1, err2, err3, err4)})
 				return
 			}
 			for i := 0; i < j.count/2; i++ {
@@ -593,6 +603,11 @@ func runC15(ctx *Ctx, idx int) {
 				}
 				ps := PadStruct{Kind: uint8(x), Off: uint32(y >> 3), Score: float32(int32(x>>9)) / 16, Tail: int16(y >> 40)}
 				if !chk(name+"/Padded", e3, ps, refPad(ps, be)) {
+					break
+				}
+				pi := PadInts{Kind: ps.Kind, Off: ps.Off, Tail: ps.Tail}
+				rp := refPad(ps, be)
+				if !chk(name+"/PaddedInts", e4, pi, append(append([]byte{}, rp[:10]...), rp[14:]...)) {
 					break
 				}
 				ctx.Count("struct_values_with_blank_fields", 1)
